@@ -196,6 +196,16 @@ def matrices(sch):
                     if op[1] != (li if li is not None else 0):
                         continue
                 out.append(typecheck_case(sch, ("cmp", ("field", fi) + idx, op)))
+    # the same comparisons under a quantifier, where the root is Bool whatever the operand's shape:
+    # any(not X), all((X)) for every index sequence (a bare boolean container behind a non-trailing [*], an
+    # array-lifted comparison, a plain scalar ...)
+    for fi, (name, t, opt) in enumerate(sch.fields):
+        for idx in shapes:
+            ft = lg.ty_index(t, idx)
+            for op in ["istrue", ("ord", "eq", ("i", 1)), ("ord", "lt", ("s", b"a"))]:
+                c = ("cmp", ("field", fi) + idx, op)
+                out.append(typecheck_case(sch, ("ql", "any", ("not", c))))
+                out.append(typecheck_case(sch, ("ql", "all", ("paren", c))))
     # operand type pairs x logical operator
     leaves = [("cmp", ("field", sch.field_index("tt")), "istrue"),
               ("cmp", ("field", sch.field_index("bools")), "istrue"),
